@@ -77,8 +77,6 @@ Definition legit_unfed_params : list (string * string) :=
     ("glue.core.data.Data", "coords"); ("glue.core.data_region.RegionData", "coords");
     (* a derived component has no stored data: it is recomputed from its link, the parent dataset is set by add_component *)
     ("glue.core.component.DerivedComponent", "data");
-    (* KNOWN DEFECT (known_findings/C02.json, key changed:derived-component-units): units of a derived component are neither saved nor restored *)
-    ("glue.core.component.DerivedComponent", "units");
     (* descriptive texts of a link (shown by the link editor) and the alternative way to give the inverse as a link; the inverse
        function itself is saved under `inverse`.  Not observables of the property. *)
     ("glue.core.component_link.ComponentLink", "inverse_component_link"); ("glue.core.component_link.ComponentLink", "description");
